@@ -13,6 +13,7 @@ import Driver.Proto
 import AdaptaVerif.Model.Peel
 import AdaptaVerif.Check.GraphParts
 import AdaptaVerif.Model.TreeLayout
+import Driver.C19Planarise
 namespace Driver.C19
 open Driver AdaptaVerif.Num AdaptaVerif.Model.Peel AdaptaVerif.Check.GraphParts
 open AdaptaVerif.Model
@@ -386,6 +387,7 @@ def run (args : List String) : IO UInt32 :=
     | some "comps" => checkComps c
     | some "layout" => checkLayout c
     | some "plan" => checkPlan strictAll c
+    | some "planx" => Driver.C19Planarise.checkPlanX c
     | some "skip" => { verdict := .ok, nontrivial := false, stats := [("plan.routerDied", 1)] }
     | _ => { verdict := .diverge "unknown case kind" })
 
